@@ -79,6 +79,9 @@ def _marksx_spec():
     }
     nodes = dict(s["nodes"])
     nodes["heading"] = {**nodes["heading"], "marks": "em strong"}
+    # a block admitting exactly one mark type, and that type does not exclude itself: its text may carry the mark
+    # several times (different attributes), i.e. more marks than the node admits mark types
+    nodes["aside"] = {"content": "inline*", "group": "block", "marks": "hl"}
     return dict(nodes=nodes, marks=marks)
 
 
@@ -163,6 +166,10 @@ def canonical_mark_subsets(O, parent, rnd, kmax=2):
         for k, spec in O.marks[n].attrs.items():
             attrs[k] = rnd.choice(["foo", "bar", ""]) if "default" not in spec else rnd.choice([spec["default"], "z", ""])
         cur = O.spec_add((n, orc.canon_json(attrs)), cur)
+        # a mark type that does not exclude itself may be present more than once (with different attributes)
+        if attrs and n not in O.marks[n].excluded and rnd.random() < 0.4:
+            k0 = sorted(attrs)[0]
+            cur = O.spec_add((n, orc.canon_json({**attrs, k0: str(attrs[k0]) + "2"})), cur)
     return cur
 
 
